@@ -1,13 +1,25 @@
-//! Watchdog: a call into the subject that does not return within LIMIT_S seconds of wall time
-//! is reported as a violation (with the case that was running) instead of hanging the check.
-//! Wall time is used only as this emergency horizon; no other verdict depends on it.
+//! Watchdog: a call into the subject that has consumed LIMIT_S seconds of CPU time on its thread
+//! without returning is reported as a violation (with the case that was running) instead of
+//! hanging the check. The horizon is CPU time of the calling thread, not wall time: on a busy
+//! machine a call that is merely waiting for the scheduler is not "a search that does not stop".
+//! (Only if the thread's CPU clock cannot be read does a wall horizon of 20 x LIMIT_S apply.)
 use std::collections::HashMap;
 use std::sync::Mutex;
 use std::time::Instant;
 
 pub const LIMIT_S: u64 = 75;
 
-type Job = (Instant, String, String, Vec<String>);
+type Job = (Instant, Option<(crate::cputime::ThreadClock, std::time::Duration)>, String, String, Vec<String>);
+
+fn expired(j: &Job) -> bool {
+    match j.1 {
+        Some((clk, start)) => match clk.cpu() {
+            Some(now) => now.saturating_sub(start).as_secs() >= LIMIT_S,
+            None => false,
+        },
+        None => j.0.elapsed().as_secs() >= 20 * LIMIT_S,
+    }
+}
 static JOBS: Mutex<Option<HashMap<u64, Job>>> = Mutex::new(None);
 static NEXT: std::sync::atomic::AtomicU64 = std::sync::atomic::AtomicU64::new(1);
 
@@ -26,7 +38,8 @@ pub fn enter(sig: String, text: String, args: Vec<String>) -> Guard {
     crate::crumb::set_owned(&args);
     let id = NEXT.fetch_add(1, std::sync::atomic::Ordering::Relaxed);
     let mut g = JOBS.lock().unwrap();
-    g.get_or_insert_with(HashMap::new).insert(id, (Instant::now(), sig, text, args));
+    let clk = crate::cputime::my_clock().and_then(|c| c.cpu().map(|t| (c, t)));
+    g.get_or_insert_with(HashMap::new).insert(id, (Instant::now(), clk, sig, text, args));
     Guard(id)
 }
 
@@ -36,9 +49,9 @@ pub fn start(on_timeout: impl Fn(String, String, Vec<String>) + Send + 'static) 
         std::thread::sleep(std::time::Duration::from_millis(500));
         let hit = {
             let g = JOBS.lock().unwrap();
-            g.as_ref().and_then(|m| m.values().find(|j| j.0.elapsed().as_secs() >= LIMIT_S).cloned())
+            g.as_ref().and_then(|m| m.values().find(|j| expired(j)).cloned())
         };
-        if let Some((_, sig, text, args)) = hit {
+        if let Some((_, _, sig, text, args)) = hit {
             on_timeout(sig, text, args);
         }
     });
